@@ -26,7 +26,8 @@ FAMILY = {"array_int": "array_new", "array_float": "array_new", "array_bool": "a
           "string_repeat": "string_repeat", "string_repeat_mb": "string_repeat", "pad_left": "string_pad", "pad_right": "string_pad",
           "pad_left_mb": "string_pad", "pad_right_mb": "string_pad", "concat_double": "string_concat",
           "replace_sq": "string_product", "join_sq": "string_product", "str_literal": "string_literal",
-          "vec_new_lit": "vec_literal", "closures": "closure", "churn": "closure_churn", "churn_mix": "object_churn", "churn_over": "closure_churn"}
+          "vec_new_lit": "vec_literal", "closures": "closure", "churn": "closure_churn", "churn_mix": "object_churn", "churn_over": "closure_churn",
+          "bytes_many": "bytes_alloc", "bytes_clone": "bytes_alloc", "bytes_resize": "bytes_alloc", "bytes_cycle": "bytes_alloc", "bytes_from_string": "bytes_alloc"}
 # bytes per unit of the size argument
 UNIT = {"array_int": 8, "array_float": 8, "array_obj": 8, "array_bool": 1, "vec_push": 8, "vec_push_float": 8, "vec_push_obj": 8,
         "vec_push_bool": 1, "vec_reserve": 8, "vec_reserve_float": 8, "vec_reserve_obj": 8, "vec_reserve_bool": 1, "manual_alloc": 8,
@@ -35,10 +36,12 @@ UNIT = {"array_int": 8, "array_float": 8, "array_obj": 8, "array_bool": 1, "vec_
         "pad_left_mb": 3, "pad_right_mb": 3}
 CAP_LO, CAP_HI = 1536 << 20, 3072 << 20
 LOOPS = ("vec_push", "vec_push_float", "vec_push_bool", "vec_push_obj", "vec_fill", "vec_fill_float", "vec_fill_bool", "vec_fill_obj",
-         "concat_double", "vec_new_lit", "closures", "manual_reuse", "replace_sq", "join_sq", "str_literal", "churn", "churn_mix", "churn_over")   # a refusal in the middle leaves the earlier charges
+         "concat_double", "vec_new_lit", "closures", "manual_reuse", "replace_sq", "join_sq", "str_literal", "churn", "churn_mix", "churn_over",
+         "bytes_alloc", "bytes_many", "bytes_clone", "bytes_resize", "bytes_cycle", "bytes_from_string")   # a refusal in the middle leaves the earlier charges
 GUARDED_LOOPS = ("vec_new_lit", "closures")      # modelled as OLoop with the per-iteration requests read from the check log
+BYTES_TIED = ("bytes_alloc", "bytes_many", "bytes_clone", "bytes_resize", "bytes_cycle")   # byte buffers: heap part of the delta is the input's code only
 CHURN = ("churn", "churn_mix", "churn_over")                  # objects created and dropped across many collections, then two arrays of 45 % of the limit
-MODELLED = set(UNIT) | {"concat_double", "replace_sq", "join_sq", "str_literal", "churn", "churn_over"} | set(GUARDED_LOOPS)
+MODELLED = set(UNIT) | {"concat_double", "replace_sq", "join_sq", "str_literal", "churn", "churn_over"} | set(GUARDED_LOOPS) | set(BYTES_TIED)
 HOST_T = 65536
 # operations that make ONE request: when they are refused the host must not have been asked for anything
 SINGLE = {"array_int", "array_float", "array_bool", "array_obj", "vec_reserve", "vec_reserve_float", "vec_reserve_bool", "vec_reserve_obj",
@@ -53,13 +56,14 @@ def parse(out):
             continue
         o = f[6].split()
         detail = f[7] if len(f) > 7 else ""
-        ev = {"nhost": 0, "maxhost": 0, "uncovered": 0, "first_uncovered": 0, "nchecks": 0, "nrefused": 0, "events": 0, "ck": None, "acc": None}
-        m = re.match(r"EV:(\d+):(\d+):(\d+):(\d+):(\d+):(\d+):(\d+):(\d+):CK=([^:\s]*)(?::ACC=(\d+)/(\d+)/(\d+)/(\d+))?", detail)
+        ev = {"nhost": 0, "maxhost": 0, "uncovered": 0, "first_uncovered": 0, "nchecks": 0, "nrefused": 0, "events": 0, "ck": None, "acc": None, "byt": None}
+        m = re.match(r"EV:(\d+):(\d+):(\d+):(\d+):(\d+):(\d+):(\d+):(\d+):CK=([^:\s]*)(?::ACC=(\d+)/(\d+)/(\d+)/(\d+))?(?::BYT=(\d+)/(\d+))?", detail)
         if m:
             g = m.groups()
             ev = {"nhost": int(g[0]), "maxhost": int(g[1]), "uncovered": int(g[2]), "first_uncovered": int(g[3]), "nchecks": int(g[4]),
                   "nrefused": int(g[5]), "events": int(g[7]), "ck": [x for x in g[8].split(",") if x] if int(g[7]) <= 96 else None,
-                  "acc": [int(x) for x in g[9:13]] if g[9] is not None else None}
+                  "acc": [int(x) for x in g[9:13]] if g[9] is not None else None,
+                  "byt": [int(g[13]), int(g[14])] if g[13] is not None else None}
         rows.append({"id": int(f[0]), "op": f[1], "size": int(f[2]), "limit": int(f[3]), "opt": int(f[4]), "coq_op": f[5],
                      "kind": int(o[0]), "delta": int(o[1]), "dpeak_kib": int(o[2]), "a0": int(o[3]), "detail": detail, "ev": ev})
     return rows
@@ -102,6 +106,10 @@ def calibrate(rows):
     base = {}
     for r in rows:
         key = (r["op"], r["opt"])
+        if r["op"] in BYTES_TIED and r["ev"].get("byt") and r["kind"] in (0, 1, 3):
+            # the heap part of the delta (the input's own code and the natives of the module); the rest is the manual counter
+            base.setdefault(key, set()).add(r["delta"] - r["ev"]["byt"][1])
+            continue
         if key in c:
             continue
         # operations without a failing case: the smallest size of the grid (no iteration / nothing reserved)
@@ -172,7 +180,7 @@ def oracle(ctx, r, const, stats):
     if kind == 2 and not (r["op"] in ("manual_alloc", "manual_reuse") and r["size"] == 0):
         ctx.violation(f"unexpected-kind:{fam}", "InvalidAllocationSize", rep)
     neg_ok = r["size"] < 0 and (r["op"] in ("manual_alloc", "manual_reuse", "array_int", "array_float", "array_bool", "array_obj") or fam == "vec_reserve")
-    bytes_ok = r["op"] == "bytes_alloc" and (r["size"] <= 0 or r["size"] > (256 << 20))
+    bytes_ok = fam == "bytes_alloc" and (r["size"] <= 0 or r["size"] > (256 << 20))
     if kind == 3 and not (neg_ok or bytes_ok):
         ctx.violation(f"unexpected-kind:{fam}", "TypeError", rep)
     # guarded loops (vec literals, closures): Ok or OutOfMemory, and OutOfMemory only near the limit
@@ -182,6 +190,13 @@ def oracle(ctx, r, const, stats):
     # the operation and again after a forced collection (recomputed from the heap itself: Heap::estimate_object_size over
     # every occupied slot).  sweep subtracts the estimate an object has when it dies: an estimate that changed since the
     # allocation without going through account_growth shows up here
+    # byte buffers are data the program holds: what the VM holds in them is part of the counter the limit is checked against
+    byt = ev.get("byt")
+    if byt and byt[0] > byt[1]:
+        over = byt[0] + (ev["acc"][0] if ev.get("acc") else 0) > r["limit"]
+        ctx.violation("byte-buffers-uncharged:bytes_alloc", f"after {r['op']}({r['size']}) the VM holds {byt[0]} bytes in byte buffers, the manual counter says {byt[1]} "
+                      f"(limit {r['limit']}{': the program holds more than the limit' if over else ''})",
+                      dict(rep, byte_buffers_held=byt[0], manual_counter=byt[1], over_limit=over))
     acc = ev.get("acc")
     if acc and acc[0] > r["limit"]:
         ctx.violation(f"held-over-limit:{fam}", f"after {r['op']}({r['size']}) the objects on the managed heap are estimated at {acc[0]} bytes under a limit of {r['limit']} "
@@ -391,6 +406,8 @@ def run(ctx):
                               "by_size_class": by_class, "by_limit": by_limit, "by_opt": by_opt}
     need = {op: {"ok", "OutOfMemory"} for op in MODELLED if op != "bytes_alloc"}
     need["bytes_alloc"] = {"ok", "TypeError"}
+    for op in ("bytes_many", "bytes_clone", "bytes_resize", "bytes_cycle"):
+        need[op] = {"ok"}
     need["churn_over"] = {"OutOfMemory"}      # 108 % of the limit: the third array is always refused
     if ctx.tier == "quick":
         need["vec_push_bool"] = {"ok"}      # the plain Vec<Bool> loop reaches the limit only with --deep (thorough); vec_fill_bool covers the region
